@@ -4,7 +4,7 @@
 From Coq Require Import ZArith Reals List.
 Import ListNotations.
 Require Import MD.Gen.RmsdFormulas MD.Rmsd.Model MD.Rmsd.AlgebraZ MD.Rmsd.AlgebraR MD.Rmsd.Quaternion
-               MD.Rmsd.Optimal MD.Rmsd.Variants.
+               MD.Rmsd.Optimal MD.Rmsd.Variants MD.Rmsd.Solver MD.Rmsd.Headline.
 
 (* ================= polynomial identities of the code, over Z (closed) ========================= *)
 Section Z. Import ZM. Local Open Scope Z_scope.
@@ -119,6 +119,45 @@ Theorem rmsd_optimal_partial : forall l lam, let i := inp_of l lam in
   msd_code l lam = resid (out_rot i) vzero l / natoms l.
 Proof. exact Optimal.rmsd_optimal_partial. Qed.
 Print Assumptions rmsd_optimal_partial.
+
+(* ---- the root solvers (Solver.v): hand models of NewtonSolve's Newton map and of DirectSolve's quartic branch *)
+(* real-rooted polynomial (Vieta), start at or above the largest root: monotone decrease, never below the
+   root, error times 3/4 per iteration *)
+Theorem newton_monotone : forall a2 a1 a0 r1 r2 r3 r4 x0 n, real_rooted a2 a1 a0 r1 r2 r3 r4 ->
+  r2 <= r1 -> r3 <= r1 -> r4 <= r1 -> r1 <= x0 ->
+  r1 <= iter a2 a1 a0 n x0 <= x0 /\ iter a2 a1 a0 (S n) x0 <= iter a2 a1 a0 n x0 /\
+  iter a2 a1 a0 n x0 - r1 <= (3 / 4) ^ n * (x0 - r1).
+Proof. exact Solver.newton_monotone. Qed.
+Print Assumptions newton_monotone.
+
+(* Ferrari as coded: given a root u of the resolvent cubic with u - C_2 > 0 and non-negative discriminants, the
+   value DirectSolve returns is a root of P and no real root is larger *)
+Theorem direct_solve_top_root : forall a2 a1 a0 u, resolvent a2 a1 a0 u = 0 -> 0 < R2 a2 u -> 0 <= D2 a2 a1 u -> 0 <= E2 a2 a1 u ->
+  P a2 a1 a0 (direct_solve a2 a1 u) = 0 /\ forall t, P a2 a1 a0 t = 0 -> t <= direct_solve a2 a1 u.
+Proof. exact Solver.direct_solve_top_root. Qed.
+Print Assumptions direct_solve_top_root.
+
+(* HEADLINE, second form: remaining hypotheses = postcondition of solve_cubic_equation, the code's non-fallback
+   test, and the spectral fact spectral_top about the symmetric matrix K *)
+Theorem rmsd_optimal_from_solver_partial : forall l u,
+  let lam := direct_solve (c2 l) (c1 l) u in let i := inp_of l lam in
+  l <> [] -> centred l ->
+  resolvent (c2 l) (c1 l) (c0 l) u = 0 -> 0 < R2 (c2 l) u -> 0 <= D2 (c2 l) (c1 l) u -> 0 <= E2 (c2 l) (c1 l) u ->
+  spectral_top l -> ~ Rf.fallback i ->
+  proper_rotation (out_rot i) /\
+  resid (out_rot i) vzero l = Ga l + Gb l - 2 * lam /\
+  (forall r t, proper_rotation r -> resid (out_rot i) vzero l <= resid r t l) /\
+  msd_code l lam = resid (out_rot i) vzero l / natoms l.
+Proof. exact Headline.rmsd_optimal_from_solver_partial. Qed.
+Print Assumptions rmsd_optimal_from_solver_partial.
+
+Theorem newton_solve_converges : forall l r1 r2 r3 r4 n,
+  real_rooted (c2 l) (c1 l) (c0 l) r1 r2 r3 r4 -> r2 <= r1 -> r3 <= r1 -> r4 <= r1 ->
+  let x0 := (Ga l + Gb l) / 2 in r1 <= x0 ->
+  let x := iter (c2 l) (c1 l) (c0 l) in
+  r1 <= x n x0 <= x0 /\ x (S n) x0 <= x n x0 /\ x n x0 - r1 <= (3 / 4) ^ n * (x0 - r1).
+Proof. exact Headline.newton_solve_converges. Qed.
+Print Assumptions newton_solve_converges.
 
 Theorem self_zero : forall xs, let l := Optimal.self xs in let i := inp_of l (Ga l) in
   RM.charpoly i (Ga l) = 0 /\ dominates i (Ga l) /\ msd_code l (Ga l) = 0.
